@@ -59,6 +59,41 @@ def runTyped (fS tyS srcS extS writtenS back1S back2S : String) : Result :=
         s!"typed {fS}({tyS}) {srcS}: impl [{writtenS} / {back1S} / {back2S}] model [{mws} / {mbs}] violates C13: key={c}"⟩
   | _, _, _ => ⟨"B", "cannot parse typed case"⟩
 
+/-- imp \t C10 \t <format> \t <ty> \t <Dyn v> \t <ext> \t <impl>: `ImportAtKey` into a declared column
+    of a fresh row. Oracle (C10, last sentence): after a successful import the raw value of a
+    column declared with raw type T is nil or a T. -/
+def runImp (fS tyS srcS extS implS : String) : Result :=
+  match Format.ofName? fS, Ty.ofName? tyS, Dyn.parse? srcS, parseOutcome implS with
+  | some f, some ty, some v, some impl =>
+    let env : Env := ⟨genTables, parseExt extS⟩
+    let m : Outcome Dyn :=
+      match importCell env f ty v with
+      | .ok (c, none) => .ok (Cells.raw c)
+      | .ok (_, some e) => .err e
+      | .err e => .err e
+      | .panic s => .panic s
+    let ms := showOutcome m
+    let is := showOutcome impl
+    let isPanic := match impl with | .panic _ => true | _ => false
+    let abstain := ms == "err EXT"
+    let d := if isPanic then !(ms.startsWith "panic") else ms != is
+    let isValue := match v with | .val _ => true | _ => false
+    let p : Option String :=
+      match impl with
+      | .panic _ => some "panic"
+      | .ok r =>
+        if ty != .none && !isValue && !(r matches .nil) && Cast.typeOf r != ty then some "import-wrong-raw-type"
+        else if (v matches .nil) && !(r matches .nil) then some "nil-imported-as-value"
+        else none
+      | .err _ => none
+    match d, p with
+    | false, none => ⟨"S", ""⟩
+    | true, none => if abstain then ⟨"X", "model abstains"⟩ else
+        ⟨"D", s!"imp {fS}({tyS}) {srcS}: impl [{is}] model [{ms}]"⟩
+    | _, some c => ⟨(if d && !abstain then "D" else "") ++ "P",
+        s!"imp {fS}({tyS}) {srcS}: impl [{implS}] model [{ms}] violates C10: key={c}"⟩
+  | _, _, _, _ => ⟨"B", "cannot parse imp case"⟩
+
 /-- Did the exporter's `NewValue` swallow a failed cast for some declared column? -/
 def swallowedCast (env : Env) (to : Tmpl) (row : List (Bytes × Val)) : Bool :=
   to.any fun (k, c) =>
